@@ -395,8 +395,11 @@ def invariants(m):
             miss, extra = sorted(need - have), sorted(have - need)
             bad.append(("channel-params", f"column {key}: " + (f"NaN in rows {miss[:8]} that carry an owning channel; " if miss else "") + (f"values in rows {extra[:8]} that carry no owning channel" if extra else "")))
     known_cols = set(owners) | set(names)
+    # columns of a channel that is no longer registered (left behind by a deletion). Only columns that carry the
+    # name of a built-in mechanism are judged: a new bookkeeping column added by the library is not an inconsistency.
+    mech_prefixes = tuple(m_ + "_" for m_ in MECHS + ["CaT"])
     for col in nodes.columns:
-        if col in known_cols or col.startswith(("global_", "local_")) or col in ("controlled_by_param", "x", "y", "z", "radius", "length", "axial_resistivity", "capacitance", "v"):
+        if col in known_cols or not (col.startswith(mech_prefixes) or col in MECHS + ["CaT"]):
             continue
         bad.append(("channels", f"column {col} belongs to no registered channel"))
     cur_names = {c.current_name for c in b.channels}
